@@ -26,8 +26,11 @@ def collect(ctx):
                 p = rng.choice(drv_error.small_params(kind))
             nthr = p.get("n_threshold", p.get("window_size", 5))
             ts.append(L.from_error(kind, drv_error.run(kind, p, burst_errors(rng, 400, nthr))))
-    for i in range(10 * k):
+    for i in range(30 * k):
         p = drv_adwin.params(rng, small=rng.random() < 0.5)
+        if i % 3 == 2:      # a large minimum window with frequent checks: after a cut the window is below the minimum for a long stretch
+            p = drv_adwin.params(rng)
+            p.update(window_size_thresh=rng.choice([40, 80]), new_sample_thresh=rng.choice([1, 3]), delta=rng.choice([0.1, 0.5]))
         xs = drv_change.shifty_stream(rng, 300, seg=(8, 40))
         script = [("update", x) for x in xs]
         script.insert(rng.randrange(len(script)), ("reset",))
